@@ -26,4 +26,5 @@ def run(tier, seed):
                        "normalisation prefix of both build routes overwrites exactly the unused components with (-0.5, 1); Vertex::from_dual measures radius2 in the active "
                        "subspace; cuboid triples exactly the active axes when periodic (reals: all boxes; bits: stated window).",
     }
+    meta["assumptions"] = list(meta["assumptions"]) + kani.scan_assumptions()
     return results, meta
